@@ -27,6 +27,7 @@ type Req struct {
 	Body          int  `json:"body,omitempty"`
 	Chunked       bool `json:"chunked,omitempty"`
 	DeclareLength bool `json:"declare_length,omitempty"`
+	Cond          bool `json:"cond,omitempty"` // carries Range / conditional / forwarding-list fields
 }
 
 type Script struct {
@@ -108,6 +109,20 @@ func gen(t *rapid.T) Script {
 			if rapid.Bool().Draw(t, "third") {
 				r.Headers = append(r.Headers, [2]string{name, "kube-probe/third"})
 			}
+		}
+		if rapid.IntRange(0, 2).Draw(t, "cond") == 0 {
+			// fields that make generic file-serving code answer something other than 200 (Range, conditional requests),
+			// and forwarding lists in shapes RFC 9110 5.6.1 allows (empty elements): a probe is answered 200 "OK" and
+			// any other request is forwarded, whatever else the request says
+			for _, h := range rapid.SliceOfNDistinct(rapid.SampledFrom([][2]string{{"Range", "bytes=0-0"}, {"Range", "bytes=5-"}, {"If-None-Match", "*"}, {"If-Match", "\"v1\""}, {"If-Modified-Since", "Wed, 21 Oct 2015 07:28:00 GMT"},
+				{"If-Range", "\"v1\""}, {"X-Forwarded-For", "203.0.113.1, , 70.41.3.18"}, {"X-Forwarded-For", "203.0.113.1,"}, {"X-Forwarded-For", ""}, {"X-Forwarded-For", ","}, {"Accept", "text/plain;q=0"}, {"Expect", ""}, {"Max-Forwards", "0"}}), 1, 3,
+				func(h [2]string) string { return h[0] + h[1] }).Draw(t, "condh") {
+				if h[0] == "Expect" {
+					continue
+				}
+				r.Headers = append(r.Headers, h)
+			}
+			r.Cond = true
 		}
 		if r.Method != "HEAD" && rapid.IntRange(0, 2).Draw(t, "body") == 0 {
 			r.Body = rapid.SampledFrom([]int{1, 100, 5000}).Draw(t, "bodylen")
@@ -200,6 +215,9 @@ func exec(t *testing.T, s Script) *vstat.Violation {
 		if len(r.Pre) > 0 {
 			cl = append(cl, "field-name-repeated-around-user-agent")
 		}
+		if r.Cond {
+			cl = append(cl, "range-conditional-or-forwarding-list-fields:"+uaClass)
+		}
 		cl = append(cl, uaClass)
 		if !s.Probe && uaClass == "ua-probe-prefix" {
 			nt = true
@@ -253,6 +271,6 @@ func dedup(in []string) []string {
 
 func TestProbe(t *testing.T) {
 	rig.Certs()
-	col.Mandatory("proto:h2", "proto:http/1.1", "probe-support:true", "probe-support:false", "ua-absent", "ua-probe-prefix", "ua-contains-literal-elsewhere", "ua-other", "ua-lines-disagree", "user-agent-sent-as-never-indexed-literal", "request-with-body:ua-probe-prefix", "field-name-repeated-around-user-agent")
+	col.Mandatory("proto:h2", "proto:http/1.1", "probe-support:true", "probe-support:false", "ua-absent", "ua-probe-prefix", "ua-contains-literal-elsewhere", "ua-other", "ua-lines-disagree", "user-agent-sent-as-never-indexed-literal", "request-with-body:ua-probe-prefix", "field-name-repeated-around-user-agent", "range-conditional-or-forwarding-list-fields:ua-probe-prefix", "range-conditional-or-forwarding-list-fields:ua-other")
 	vstat.Run(t, vstat.Spec[Script]{Col: col, Quick: 2500, Thorough: 60000, Gen: gen, Exec: func(s Script) *vstat.Violation { return exec(t, s) }})
 }
